@@ -18,10 +18,11 @@ pub mod c16;
 pub mod c17;
 pub mod c18;
 pub mod c19;
+pub mod c20;
 
 use crate::engine::Property;
 
-pub const ALL_IDS: &[&str] = &["C01", "C02", "C03", "C04", "C05", "C06", "C07", "C08", "C09", "C10", "C11", "C12", "C13", "C14", "C15", "C16", "C17", "C18", "C19"];
+pub const ALL_IDS: &[&str] = &["C01", "C02", "C03", "C04", "C05", "C06", "C07", "C08", "C09", "C10", "C11", "C12", "C13", "C14", "C15", "C16", "C17", "C18", "C19", "C20"];
 
 pub fn build(id: &str) -> Option<Property> {
     match id {
@@ -44,6 +45,7 @@ pub fn build(id: &str) -> Option<Property> {
         "C17" => Some(c17::build()),
         "C18" => Some(c18::build()),
         "C19" => Some(c19::build()),
+        "C20" => Some(c20::build()),
         _ => None,
     }
 }
